@@ -7,6 +7,9 @@ Engine/AndOr.vos Engine/AndOr.vok Engine/AndOr.required_vos: Engine/AndOr.v
 Engine/RecEngine.vo Engine/RecEngine.glob Engine/RecEngine.v.beautified Engine/RecEngine.required_vo: Engine/RecEngine.v Engine/AndOr.vo
 Engine/RecEngine.vio: Engine/RecEngine.v Engine/AndOr.vio
 Engine/RecEngine.vos Engine/RecEngine.vok Engine/RecEngine.required_vos: Engine/RecEngine.v Engine/AndOr.vos
+Infer/Script.vo Infer/Script.glob Infer/Script.v.beautified Infer/Script.required_vo: Infer/Script.v Ir/Syntax.vo Ir/Fold.vo Infer/Table.vo Infer/Unify.vo
+Infer/Script.vio: Infer/Script.v Ir/Syntax.vio Ir/Fold.vio Infer/Table.vio Infer/Unify.vio
+Infer/Script.vos Infer/Script.vok Infer/Script.required_vos: Infer/Script.v Ir/Syntax.vos Ir/Fold.vos Infer/Table.vos Infer/Unify.vos
 Infer/Table.vo Infer/Table.glob Infer/Table.v.beautified Infer/Table.required_vo: Infer/Table.v Ir/Syntax.vo
 Infer/Table.vio: Infer/Table.v Ir/Syntax.vio
 Infer/Table.vos Infer/Table.vok Infer/Table.required_vos: Infer/Table.v Ir/Syntax.vos
